@@ -247,7 +247,7 @@ func lengthsAround(w int) []int {
 
 func c03(ctx *run.Ctx) {
 	census := mon.NewCensus()
-	nrand := ctx.Pick(3, 8)
+	nrand := ctx.Pick(3, 16)
 	// --- indicators, equal-length inputs ---
 	for _, ind := range reg.Sorted() {
 		ind := ind
@@ -293,14 +293,14 @@ func c03(ctx *run.Ctx) {
 		}
 	}
 	// --- strategies ---
-	base := baseStrats(ctx, ctx.Pick(1, 4))
+	base := baseStrats(ctx, ctx.Pick(1, 8))
 	var small []namedStrat
 	for _, b := range base {
 		if b.Warm <= 40 {
 			small = append(small, b)
 		}
 	}
-	all := append(append([]namedStrat(nil), base...), compoundStrats(ctx, small, ctx.Pick(10, 30))...)
+	all := append(append([]namedStrat(nil), base...), compoundStrats(ctx, small, ctx.Pick(10, 80))...)
 	for si, ns := range all {
 		ns := ns
 		for _, n := range lengthsAround(ns.Warm) {
